@@ -666,6 +666,41 @@ fn judge_sweep(
     if pl > 0 {
         t.nontrivial(crate::util::fnv_str(&format!("{}|{}", label, case)));
     }
+    // coordinated pairs (thorough tier): two hint generators replaced at once
+    let n_pairs: usize = std::env::var("QPV_C10_PAIRS").ok().and_then(|s| s.parse().ok()).unwrap_or(0);
+    if n_pairs > 0 {
+        let r = circ.run(inputs, &[], true, false);
+        if let Some(w) = r.witness {
+            let gens = hints::hint_gens(circ);
+            let mut found: Vec<(usize, usize, hints::Alt, hints::Alt, Vec<u64>)> = vec![];
+            let n2 = hints::sweep_pairs(circ, inputs, &w, &gens, rng, n_pairs, |ga, gb, xa, xb, out| {
+                if let Outcome::Sat { pis } = out {
+                    found.push((ga, gb, xa.clone(), xb.clone(), pis));
+                }
+            });
+            drop(w);
+            t.evals(n2 as u64);
+            t.count("hint_pairs_evaluated", n2 as u64);
+            for (ga, gb, xa, xb, pis) in found {
+                let bad = match honest {
+                    Outcome::Sat { pis: hp } => &pis != hp,
+                    Outcome::Unsat(_) => true,
+                };
+                if !bad {
+                    continue;
+                }
+                let repl = vec![Replace { gen: ga, values: xa.values.clone() }, Replace { gen: gb, values: xb.values.clone() }];
+                match circ.confirm(inputs, &repl) {
+                    Ok(_) => t.violation(
+                        format!("C10:{}:{}:pair", label.split('|').next().unwrap_or(label), if honest.is_sat() { "output-changes" } else { "rescued" }),
+                        format!("{}: coordinated hint overrides {} on generator {} and {} on generator {} {}", label, xa.desc, ga, xb.desc, gb, if honest.is_sat() { "yield a different public output" } else { "make a failing batch provable" }),
+                        json!({"kind": "c10", "label": label, "case": case, "gens": [ga, gb], "alts": [xa.desc, xb.desc]}),
+                    ),
+                    Err(e) => t.infra(format!("C10 pair Sat / prover disagree: {}", e)),
+                }
+            }
+        }
+    }
     for (g, alt, pis) in sat {
         let bad = match honest {
             Outcome::Sat { pis: hp } => &pis != hp,
@@ -694,7 +729,7 @@ pub fn run_c10(ctx: &Ctx) {
          Oracle: accepted batch => every Sat alternative has identical public inputs; rejected batch => no alternative is Sat (Sat candidates confirmed by the real prover). \
          Non-trivial: a case in which at least one overridden hint had a numerically valid alternative (alias exists, or equality inputs equal so the inverse is free).",
     );
-    ctx.assume("single-generator replacement with honest recomputation downstream; coordinated lies across >=2 independent hint generators are explored only in the thorough tier (pairs)");
+    ctx.assume("single-generator replacement with honest recomputation downstream, plus sampled coordinated pairs of hint generators (neighbours in creation order and random pairs; 24 per case quick, 400 thorough); coordinated lies across >= 3 independent hint generators are out of reach");
     let priv_sizes = [1usize, 2, 3, 4];
     let privs = match privprops::build_circuits(&priv_sizes, false) {
         Ok(p) => p,
@@ -712,6 +747,8 @@ pub fn run_c10(ctx: &Ctx) {
     };
     let workers = ctx.n_workers();
     let scale = ctx.tier.pick(1usize, 30);
+    // pair sweeps: a small sample in quick, 400 pairs per case in thorough
+    std::env::set_var("QPV_C10_PAIRS", ctx.tier.pick("24", "400"));
     ctx.par(workers, |wi, t| {
         let mut rng = Rng::fork(ctx.seed, wi as u64);
         // private wrapper
